@@ -201,3 +201,12 @@ def digest_checked_before_delete(ev):
                         if v is not None and v == (a_[1] == "!="):
                             return True
     return False
+
+
+def rules_of(A, prop):
+    """the rule objects of another property's checker, computed once per analysis (rules shared between properties)"""
+    cache = A.__dict__.setdefault("_rule_cache", {})
+    if prop not in cache:
+        from .__main__ import registry
+        cache[prop] = registry()[prop](A, "quick")
+    return cache[prop]
